@@ -94,9 +94,13 @@ class PutSpy(object):
 
         def put(store, arg0, arg1, cmd, data):
             spy.calls += 1
+            try:
+                known = arg1 in store._dict and arg0 in store._dict[arg1]       # the store already has an entry for this pair (its queue may be empty)
+            except (AttributeError, TypeError):
+                known = None
             r = spy.orig(store, arg0, arg1, cmd, data)
             stored = store.find(arg0, arg1) is not None
-            spy.events.append((spy.actor(), arg0, arg1, cmd, stored))
+            spy.events.append((spy.actor(), arg0, arg1, cmd, stored, known))
             return r
         cls.put = put
         self.actor = lambda: None
@@ -119,6 +123,7 @@ def run_schedule(impl, actors_steps, strategy, line=False, dims=None, core_kw=No
             sched.install_task_locks(s)
         spy.actor = s.actor_id
         sim = simdev.SimDevice(rng=random.Random(5), maxdata=dims["maxdata"], remote_ids=dims["remote"])
+        sim.wrte_delay = float(dims.get("pace", 0.0) or 0.0)
         sess = session.Session(impl, sim=sim, checked_locks=False, frag=dims["frag"], empty_rate=dims["empty_rate"], timeouts_cost_time=False, **dict({"budget": 200000}, **(core_kw or {})))
         out = sess.call("connect")
         assert out.ok, out
@@ -149,6 +154,10 @@ def run_schedule(impl, actors_steps, strategy, line=False, dims=None, core_kw=No
                     import threading
                     actor_thread[threading.get_ident()] = ai
                     for i, step in enumerate(actors_steps[ai]):
+                        if step["op"] == "reconnect":
+                            sess.call("close")
+                            sess.call("connect")
+                            continue
                         o, v = runners[ai].run_step(i, step)
                         results[ai].append((step, o, v))
                         held = list(sched.ManagedLock.held_by.get(ai, []))
@@ -209,11 +218,22 @@ def run_schedule(impl, actors_steps, strategy, line=False, dims=None, core_kw=No
             res["viol"].append({"mechanism": "deadlock", "detail": "%s: actors %r wait for locks %r and nobody can run" % (where, s.deadlock["blocked"], names)})
         for (aid, e) in s.errors:
             res["viol"].append({"mechanism": "actor-crashed:%s" % type(e).__name__, "detail": "%s: actor %d: %s: %s" % (where, aid, type(e).__name__, str(e)[:200])})
+        tolerant = any(st_["op"] == "reconnect" for a_ in actors_steps for st_ in a_)
+        if tolerant:
+            # one actor replaced the connection under the others: their operations may fail in any way; what is still judged is locking (deadlock, lock order,
+            # locks held at return, transport calls without the lock)
+            results = [[] for _ in results]
+            spy.events = []
+            res["viol"] = [v for v in res["viol"] if v["mechanism"] == "deadlock"]
         # K1 events: a CLSE that put() dropped although its stream is a live stream of another actor
         dropped = {}
-        for (actor, a0, a1, cmd, stored) in spy.events:
+        for (actor, a0, a1, cmd, stored, known) in spy.events:
             stt = sim.streams.get(a1)
             owner = actor_thread.get(stt.owner) if stt is not None else None
+            if cmd == repo.constants.CLSE and not stored and known and stt is not None and stt.remote == a0:
+                # the known finding K1 is about a stream the store has NO entry for; a stream it knows keeps its CLSE
+                res["viol"].append({"mechanism": "clse-dropped-for-known-stream", "detail": "%s: the CLSE of stream (remote %d, local %d), read by actor %s, was dropped although the store had an entry for that stream" % (where, a0, a1, actor)})
+                continue
             if stored:
                 res["parked"] += 1
                 key = "%s->%s" % (actor, owner)
@@ -221,13 +241,15 @@ def run_schedule(impl, actors_steps, strategy, line=False, dims=None, core_kw=No
             if cmd == repo.constants.CLSE and not stored and stt is not None and stt.remote == a0 and owner is not None and owner != actor:
                 dropped[a1] = (actor, owner)
         for ai, rs in enumerate(results):
+            if tolerant:
+                break
             if not s.deadlock and not res["watchdog"] and len(rs) != len(actors_steps[ai]):
                 res["viol"].append({"mechanism": "actor-incomplete", "detail": "%s: actor %d ran %d of %d steps" % (where, ai, len(rs), len(actors_steps[ai]))})
             for (step, o, v) in rs:
                 if o.ok and not v:
                     continue
-                if step.get("refused") and not o.ok and o.exc_name() in ("TcpTimeoutException", "AdbTimeoutError"):
-                    continue          # the device refused this stream: the operation fails alone, too
+                if (step.get("refused") or step.get("impatient")) and not o.ok and o.exc_name() in ("TcpTimeoutException", "AdbTimeoutError"):
+                    continue          # the device refused this stream / the caller asked for a limit shorter than the device's pace: the operation fails alone, too
                 if not o.ok and o.exc_name() in ("TcpTimeoutException", "AdbTimeoutError"):
                     # which stream did this call wait on?  its streams are those opened by this actor's thread whose dest matches
                     mine = [x for x in sim.all_streams if actor_thread.get(x.owner) == ai and x.local in dropped]
@@ -241,7 +263,7 @@ def run_schedule(impl, actors_steps, strategy, line=False, dims=None, core_kw=No
                     res["viol"].append({"mechanism": "raised:%s" % (o.exc_name() or o.kind), "detail": "%s: actor %d's %s raised %s" % (where, ai, step["op"], o.brief(160))})
                 else:
                     res["viol"].append({"mechanism": "wrong-result:" + v[0]["mechanism"], "detail": "%s: actor %d: %s" % (where, ai, v[0]["detail"][:200])})
-        for mv in sess.monitor.of("C14"):
+        for mv in (sess.monitor.of("C14") if not tolerant else []):
             # two live streams with one local id cannot be told apart: whatever the device sends on one may be taken by the other
             res["viol"].append({"mechanism": "stream-id-shared", "detail": "%s: %s" % (where, mv.detail)})
             break
@@ -255,7 +277,7 @@ def run_schedule(impl, actors_steps, strategy, line=False, dims=None, core_kw=No
                     res["viol"].append({"mechanism": "lock-order", "detail": "%s: the transport lock was acquired while the store lock was held" % where})
             for (ai, opn, held) in held_at_end:
                 res["viol"].append({"mechanism": "lock-held-at-return", "detail": "%s: actor %d still holds %r after %s ended" % (where, ai, held, opn)})
-        for mv in sess.monitor.of("C02") + sess.monitor.of("C14"):
+        for mv in (sess.monitor.of("C02") + sess.monitor.of("C14") if not tolerant else []):
             res["viol"].append({"mechanism": "monitor:%s:%s" % (mv.prop, mv.rule), "detail": "%s: %s" % (where, mv.detail)})
         if res["watchdog"]:
             res["viol"].append({"mechanism": "harness-watchdog", "detail": "%s: wall-clock watchdog fired (inconclusive)" % where})
@@ -339,11 +361,14 @@ def run_free(actors_steps, seed, dims):
         # a real deadlock or a lost wake-up that blocks forever cannot be told from a slow machine here: inconclusive
         return res
     dropped = {}
-    for (actor, a0, a1, cmd, stored) in spy.events:
+    for (actor, a0, a1, cmd, stored, known) in spy.events:
         stt = sim.streams.get(a1)
         owner = tid.get(stt.owner) if stt is not None else None
         if stored:
             res["parked"] += 1
+        if cmd == repo.constants.CLSE and not stored and known and stt is not None and stt.remote == a0:
+            res["viol"].append({"mechanism": "clse-dropped-for-known-stream", "detail": "%s: the CLSE of stream (remote %d, local %d) was dropped although the store had an entry for that stream" % (where, a0, a1)})
+            continue
         if cmd == repo.constants.CLSE and not stored and stt is not None and stt.remote == a0 and owner is not None and owner != tid.get(actor):
             dropped[a1] = (tid.get(actor), owner)
     for (ai, e) in crashed:
@@ -462,6 +487,19 @@ def run_case(case):
             ckw = None
         dims = {"maxdata": rng.choice([4096, 8192, 65536]), "remote": rng.choice(gen.REMOTE_REGIMES), "id_start": rng.choice(gen.ID_STARTS), "frag": rng.choice(["whole", "minus1"]),
                 "empty_rate": rng.choice([0.0, 0.1]), "noise": []}
+        if ckw is None and case["impl"] == "sync" and rng.random() < 0.08:
+            # one more actor closes the connection and connects again while the others run
+            steps.append([{"op": "reconnect"}])
+            nact += 1
+            stats["schedules_with_reconnecting_actor"] = stats.get("schedules_with_reconnecting_actor", 0) + 1
+        elif ckw is None and rng.random() < 0.12:
+            # a paced device (a WRTE every 0.05 virtual seconds) and one impatient actor whose limit is shorter than that: it may time out (also while it
+            # waits for the transport behind the others' reads) -- but it must do so between packets, the others must not notice
+            dims["pace"] = 0.05
+            dims["frag"] = "minus1"
+            a = rng.randrange(nact)
+            steps[a] = [dict(sh("imp%d-%d" % (a, j), 2), impatient=True, read_timeout_s=rng.choice([0.02, 0.06])) for j in range(rng.choice([1, 2]))]
+            stats["schedules_with_impatient_actor"] = stats.get("schedules_with_impatient_actor", 0) + 1
         lp = rng.choice([0.02, 0.1, 0.3]) if case.get("line") and case["impl"] == "sync" else 0.0
         if case["kind"] == "pct":
             strat = sched.PCT(case["seed"], nact, depth=rng.choice([1, 2, 3]), horizon=rng.choice([50, 200, 600]), line_prob=lp)
